@@ -32,18 +32,17 @@ SitePc(s) ==
     [] s = 60 -> {"ts_ep"} [] s = 61 -> {"st_swap", "sw_swap", "cas_try", "cast_try"}
     [] s = 62 -> {"idle"} [] s = 63 -> {"ts_ep", "st_swap"} [] s = 64 -> {"ts_ep", "sw_swap"}
     [] s \in {65, 66} -> {"cas_try"} [] s = 67 -> {"cast_try"}
-    [] s = 80 -> {"idle"} [] s = 81 -> {"wst_swap"} [] s = 82 -> {"wsw_swap"} [] s \in {83, 84} -> {"wcas_try"}
+    [] s = 80 -> {"idle"} [] s = 81 -> {"wst_swap"} [] s = 82 -> {"wsw_swap"} [] s \in {83, 84} -> {"wcas_try"} [] s = 85 -> {"wcast_try"}
     [] OTHER -> {"?"}
 
-Unsupported == {"give", "recv", "with_tag", "release_all", "clear_cells", "iter_new", "iter_next", "iter_drop", "iter_abort",
-                "new_many", "flush", "reactivate", "wcas_tag", "weak_many", "finalize"}
+Unsupported == {"give", "recv", "with_tag", "release_all", "clear_cells", "flush", "reactivate"}
 
 \* observable agreement between the model state and a line
 ObsEq(r) ==
   /\ gep = r.gep
   /\ \A o \in Obj : life[o] = LifeOf(r, o) /\ (life[o] \in {"live", "dead"} => cnt[o] = CntOf(r, o))
   /\ \A loc \in SLoc : lnk[loc] = LnkOf(r, loc)
-  /\ \A loc \in WLoc : wlnk[loc].p = WLnkOf(r, loc).p
+  /\ \A loc \in WLoc : wlnk[loc].p = WLnkOf(r, loc).p /\ wlnk[loc].tag = WLnkOf(r, loc).tag
   /\ \A t \in Thr : (mode[t] # "out") = r.thr[t].pin /\ (r.thr[t].pin => lep[t] = r.thr[t].lep)
   /\ tasks = TaskSet(r)
 PcOk(r, t) == pc[t] = "ext" \/ pc[t] \in SitePc(r.thr[t].site)
@@ -58,7 +57,7 @@ StrictSilent(t) == Silent(t) \/ PopFrame(t) \/ FastFail(t)
 \* ---- consuming a line
 ActOp(r) == IF r.k = "start" THEN r.opn ELSE IF r.t = 0 THEN "" ELSE Rec[l].thr[r.t].op
 NullTarget(r) == "ret" \in DOMAIN r /\ r.k = "start" /\ r.ret.tgt = 0
-                 /\ r.opn \in {"clone", "drop", "counted", "upgrade", "downgrade", "wclone", "dropweak", "wsupgrade", "wcounted", "snap", "wsnap", "snapdown"}
+                 /\ r.opn \in {"clone", "drop", "counted", "upgrade", "downgrade", "wclone", "dropweak", "wsupgrade", "wcounted", "snap", "wsnap", "snapdown", "finalize", "weak_many"}
 Skip(r) == \/ r.k \in {"reset", "setup", "fin", "abort"}
            \/ ActOp(r) \in Unsupported
            \/ NullTarget(r)
@@ -68,7 +67,7 @@ Resync(r) ==
   /\ mode' = [t \in Thr |-> ModeOf(r.thr[t])] /\ lep' = [t \in Thr |-> r.thr[t].lep]
   /\ cnt' = [o \in Obj |-> CntOf(r, o)] /\ life' = [o \in Obj |-> LifeOf(r, o)]
   /\ lnk' = [loc \in SLoc |-> LnkOf(r, loc)]
-  /\ wlnk' = [loc \in WLoc |-> [p |-> WLnkOf(r, loc).p, tag |-> 0, ts |-> 0]]
+  /\ wlnk' = [loc \in WLoc |-> [p |-> WLnkOf(r, loc).p, tag |-> WLnkOf(r, loc).tag, ts |-> 0]]
   /\ tasks' = TaskSet(r)
   /\ rc' = [t \in Thr |-> [o \in Obj |-> CountOf(r.own[t].rc, o)]]
   /\ wk' = [t \in Thr |-> [o \in Obj |-> CountOf(r.own[t].wk, o)]]
@@ -97,19 +96,26 @@ Api(t, r) ==
     [] n \in {"wsnap", "snapdown"} -> WSnap(t) \/ (UNCHANGED vars)
     [] n = "load" -> Load(t) \/ (UNCHANGED vars)            \* loading null / an object already held
     [] n = "wload" -> WLoad(t) \/ (UNCHANGED vars)
-    [] n = "store" -> LinkOp(t, "store", "st_swap") /\ reg'[t].c = LocOf(a.loc) /\ reg'[t].x = a.des.o /\ reg'[t].xt = a.des.tag
-    [] n = "swap" -> LinkOp(t, "swap", "sw_swap") /\ reg'[t].c = LocOf(a.loc) /\ reg'[t].x = a.des.o /\ reg'[t].xt = a.des.tag
-    [] n \in {"cas", "cas_weak"} -> LinkOp(t, "cas", "cas_try") /\ reg'[t].c = LocOf(a.loc) /\ reg'[t].x = a.des.o /\ reg'[t].xt = a.des.tag
-                                     /\ reg'[t].ex = a.exp.o /\ reg'[t].ext = a.exp.tag
-    [] n = "cas_tag" -> LinkOp(t, "cas_tag", "cast_try") /\ reg'[t].c = LocOf(a.loc) /\ reg'[t].xt = a.ntag
-                        /\ reg'[t].ex = a.exp.o /\ reg'[t].ext = a.exp.tag
-    [] n = "wstore" -> WLinkOp(t, "wstore", "wst_swap") /\ reg'[t].c = WLocOf(a.loc) /\ reg'[t].x = a.des.o
-    [] n = "wswap" -> WLinkOp(t, "wswap", "wsw_swap") /\ reg'[t].c = WLocOf(a.loc) /\ reg'[t].x = a.des.o
-    [] n \in {"wcas", "wcas_weak"} -> WLinkOp(t, "wcas", "wcas_try") /\ reg'[t].c = WLocOf(a.loc) /\ reg'[t].x = a.des.o /\ reg'[t].ex = a.exp.o
+    [] n = "store" -> LinkOpAt(t, "store", "st_swap", LocOf(a.loc), a.des.o, a.des.tag, NULL, 0)
+    [] n = "swap" -> LinkOpAt(t, "swap", "sw_swap", LocOf(a.loc), a.des.o, a.des.tag, NULL, 0)
+    [] n \in {"cas", "cas_weak"} -> LinkOpAt(t, "cas", "cas_try", LocOf(a.loc), a.des.o, a.des.tag, a.exp.o, a.exp.tag)
+    [] n = "cas_tag" -> LinkOpAt(t, "cas_tag", "cast_try", LocOf(a.loc), NULL, a.ntag, a.exp.o, a.exp.tag)
+    [] n = "wstore" -> WLinkOpAt(t, "wstore", "wst_swap", WLocOf(a.loc), a.des.o, a.des.tag, NULL, 0)
+    [] n = "wswap" -> WLinkOpAt(t, "wswap", "wsw_swap", WLocOf(a.loc), a.des.o, a.des.tag, NULL, 0)
+    [] n \in {"wcas", "wcas_weak"} -> WLinkOpAt(t, "wcas", "wcas_try", WLocOf(a.loc), a.des.o, a.des.tag, a.exp.o, a.exp.tag)
+    [] n = "wcas_tag" -> WLinkOpAt(t, "wcas_tag", "wcast_try", WLocOf(a.loc), NULL, a.ntag, a.exp.o, a.exp.tag)
+    [] n = "finalize" -> Drop(t) /\ reg'[t].o = a.tgt /\ reg'[t].g
+    [] n = "weak_many" -> Downgrade(t) /\ reg'[t].o = a.tgt /\ reg'[t].n = a.ntag
+    [] n \in {"new_many", "iter_new"} /\ a.ntag = 0 -> NewMany0(t)
+    [] n \in {"new_many", "iter_new"} -> NewMany(t) /\ life' = [o \in Obj |-> LifeOf(r, o)]
+                                          /\ rc'[t] = [o \in Obj |-> CountOf(r.own[t].rc, o)] /\ it'[t] = [o \in Obj |-> CountOf(r.own[t].it, o)]
+    [] n = "iter_next" -> IF a.tgt # 0 /\ it[t][a.tgt] > 0 THEN IterNext(t) /\ it'[t][a.tgt] = it[t][a.tgt] - 1 ELSE UNCHANGED vars
+    [] n = "iter_drop" -> IF a.tgt # 0 /\ it[t][a.tgt] > 0 THEN IterEnd(t) /\ reg'[t].o = a.tgt /\ ~reg'[t].g ELSE UNCHANGED vars
+    [] n = "iter_abort" -> IF a.tgt # 0 /\ it[t][a.tgt] > 0 THEN IterEnd(t) /\ reg'[t].o = a.tgt /\ reg'[t].g ELSE UNCHANGED vars
     [] n = "pin" -> Pin(t)
     [] n = "unpin" -> Unpin(t)
     [] n = "collect" -> Collect(t)
-    [] n = "new" -> New(t) /\ lnk' = [loc \in SLoc |-> LnkOf(r, loc)] /\ life' = [o \in Obj |-> LifeOf(r, o)]
+    [] n = "new" -> LET o == r.ret.outs[1].o  lk == LnkOf(r, <<"f", o, 1>>) IN NewAt(t, o, lk.p, lk.ts, lk.tag)
     [] OTHER -> FALSE
 Consume(r) ==
   IF Skip(r) THEN Resync(r)
